@@ -73,6 +73,9 @@ type srvSession struct {
 	// blocked is signalled when a Send is waiting on the gate
 	blocked chan struct{}
 
+	// forward, if set, relays every response to a bridged client (kind, message)
+	forward func(kind string, m *signaling.SessionResponse)
+
 	done   chan struct{}
 	retErr error
 }
@@ -134,7 +137,11 @@ func (s *srvSession) Send(m *signaling.SessionResponse) error {
 	}
 	s.mu.Lock()
 	s.events = append(s.events, ev)
+	fw := s.forward
 	s.mu.Unlock()
+	if fw != nil {
+		fw(ev.kind, m)
+	}
 	return nil
 }
 func (s *srvSession) Recv() (*signaling.SessionRequest, error) {
